@@ -263,7 +263,11 @@ impl Verify for QuantizedParameters {
     fn verify(&self) -> Result<(), VerifyError> {
         verify_range!("order", self.order(), ..=MAX_LPC_ORDER)?;
         verify_range!("shift", self.shift(), MIN_LPC_SHIFT..=MAX_LPC_SHIFT)?;
-        verify_range!("precision", self.precision(), ..=MAX_LPC_PRECISION)?;
+        verify_range!("precision", self.precision(), 1..=MAX_LPC_PRECISION)?;
+        let limit = 1i16 << (self.precision() - 1);
+        for j in 0..self.order() {
+            verify_range!("coefs[{j}]", self.coefs[j], (-limit)..limit)?;
+        }
         Ok(())
     }
 }
